@@ -139,6 +139,13 @@ func (exec *Executor) getArrayIndex(
 	found := newList()
 	res, err := exec.executeItem(ctx, node, value, found)
 	if res == statusFailed {
+		if err == nil {
+			// The error was suppressed, but the subscript still has no value.
+			err = fmt.Errorf(
+				"%w: jsonpath array subscript is not a single numeric value",
+				ErrVerbose,
+			)
+		}
 		return 0, err
 	}
 
